@@ -76,6 +76,12 @@ var pathExprs = []exprSpec{
 	{"/x:top/*", false, []string{"x"}},
 	{"/zz:top/zz:leaf", true, []string{"zz"}},
 	{"/x:top/zz:leaf", true, []string{"x", "zz"}},
+	// (appended) the key expression of a predicate is a plain path: no predicate of its own, no other function
+	{"/x:top/x:ls[x:k = current()/../x:a[x:b = current()/../x:c]/x:d]/x:v", false, []string{"x"}},
+	{"/x:top/x:ls[x:k = current()/../x:a[x:b = current()/../x:c]/x:d]", false, []string{"x"}},
+	{"/x:top/x:ls[x:k = current()/x:a]/x:v", false, []string{"x"}},
+	{"/x:top/x:ls[x:k = string(current()/../x:a)]/x:v", false, []string{"x"}},
+	{"/x:top/x:ls[x:k = current()/../x:a][x:j = current()/../../y:b]/x:v", true, []string{"x", "y"}},
 }
 
 var placements = []string{"direct", "grouping-local", "grouping-remote", "augment-from-user", "augment-into-user", "typedef-remote", "submodule", "grouping-unused", "grouping-nested-remote",
